@@ -122,10 +122,15 @@ def apply_tmp(eng, store, tmp):
     are concrete on every path (fresh ids come from the inlined id generator over a concrete set)."""
     post = dict(store)
     deleted = []
+    symbolic_deletes = tmp.setdefault("symbolic_deletes", [])
+    del symbolic_deletes[:]
     for d in tmp["deleted"]:
         d = z3.simplify(d)
         if not z3.is_bv_value(d):
-            raise E.Unknown("symbolic node id in TmpNodes::remove")
+            # a symbolic id can only be an *item* id that leaked into a tree-node deletion: report it
+            # if it can hit a live tree node, otherwise it deletes nothing
+            symbolic_deletes.append(d)
+            continue
         deleted.append(d.as_long())
     remap = {}
     for a, b in tmp["remap"]:
@@ -184,9 +189,15 @@ def walk(eng, post, nid, seen_nodes, problems, conds, capacity=None, oversize=No
     return BV(0, U), []
 
 
-def check_inv(eng, pc, post, root, expected, stored, label, untouched=None):
+def check_inv(eng, pc, post, root, expected, stored, label, untouched=None, tmp=None):
     """Decide Inv(post tree from root, expected item set); returns a violation dict or None."""
     problems, conds, seen = [], [], set()
+    for d in (tmp or {}).get("symbolic_deletes", []):
+        for t in sorted(post):
+            ok, m = eng.check(pc, d == BV(t, 32))
+            if ok:
+                return {"clause": f"an item id is passed to TmpNodes::remove and deletes the live tree node {t} that happens to carry the same number",
+                        "model": m, "cond": d == BV(t, 32)}
     reached, item_children = walk(eng, post, root, seen, problems, conds)
     if problems:
         ok, m = eng.check(pc)
@@ -338,7 +349,7 @@ def run_insert(ctx, shapes, max_new, deadline, faults=False):
             try:
                 post, _deleted = apply_tmp(eng, pre.store, f.env["tmp"])
                 # the caller ignores the returned id for the root call: the root stays where it was
-                v = check_inv(eng, f.pc, post, pre.root, pre.items | new, pre.items | new, "insert")
+                v = check_inv(eng, f.pc, post, pre.root, pre.items | new, pre.items | new, "insert", tmp=f.env["tmp"])
                 if v is None:
                     v = check_capacity(eng, f, post, pre.root, split_after)
             except E.Unknown as e:
@@ -636,7 +647,7 @@ def run_delete(ctx, shapes, deadline, faults=False):
             try:
                 new_root, ret_items = rv.f[0].f[0], rv.f[0].f[1]
                 post, _deleted = apply_tmp(eng, pre.store, f.env["tmp"])
-                v = check_inv(eng, f.pc, post, W.tree_id(new_root), remaining, remaining, "delete")
+                v = check_inv(eng, f.pc, post, W.tree_id(new_root), remaining, remaining, "delete", tmp=f.env["tmp"])
                 if v is None:
                     ok, m = eng.check(f.pc, ret_items != remaining)
                     if ok:
